@@ -16,7 +16,7 @@ from simkit.core import HarnessError
 
 PROP = "C09"
 LEVEL = "fault_enumeration"
-TIERS = {"quick": dict(runs=48, wall=900, chunk=1), "thorough": dict(runs=400, wall=5400, chunk=1)}
+TIERS = {"quick": dict(runs=48, wall=1400, chunk=1), "thorough": dict(runs=400, wall=5400, chunk=1)}
 TIME_UNIT = "parses (no clock in the code under test; the read history of each parse is recorded)"
 RULE = ("one evaluation = DEX(buf) on a valid small DEX file with exactly one stored-byte fault (offset >= 12, checksum left "
         "stale) or one header-field fault (checksum recomputed); per file the space offset x value is enumerated (quick: 4 "
